@@ -235,14 +235,42 @@ theorem resolveType_written {m : Str} (hm : m ∈ TypeName.baseTypes) (e : Optio
   simp only [he]
   cases l <;> cases p <;> cases s <;> rfl
 
+/-- the element type as `from_dict` hands it to the constructor -/
+def restoredElem (e : Option Ty) : Option RawTy :=
+  match restoreElem (some (e.map writeTy)) with
+  | some x => x
+  | none => none
+
+theorem restoreElem_written (e : Option Ty) :
+    restoreElem (some (e.map writeTy)) = some (restoredElem e) := by
+  unfold restoredElem restoreElem
+  split <;> rfl
+
 theorem resolveElem_written (e : Option Ty)
-    (h : ∀ t, e = some t → ∃ m, t = .member m ∧ m ∈ TypeName.baseTypes) :
-    resolveElem (e.map writeTy) = .ok e := by
+    (h : ∀ t, e = some t → ∃ m, t = .member m ∧ m ∈ persistableTypes) :
+    resolveElem (restoredElem e) = .ok e := by
   cases e with
   | none => rfl
   | some t =>
     obtain ⟨m, rfl, hm⟩ := h t rfl
-    simp [writeTy, resolveElem, fromNameRaw, base_resolves m hm]
+    simp only [persistableTypes, List.mem_cons] at hm
+    rcases hm with rfl | hm
+    · rfl
+    · have hne : (some (some (RawTy.text (TypeName.valueOf m))) =
+          some (some (RawTy.text (TypeName.valueOf missingName)))) = False := by
+        simp only [Option.some.injEq, RawTy.text.injEq, eq_iff_iff, iff_false]
+        exact base_ne_missing m hm
+      simp [restoredElem, restoreElem, writeTy, hne, resolveElem, fromNameRaw, base_resolves m hm]
+
+theorem restoredElem_isSome (e : Option Ty) (h : e.isSome = true) : (restoredElem e).isSome = true := by
+  cases e with
+  | none => simp at h
+  | some t =>
+    unfold restoredElem restoreElem
+    by_cases hc : (some (Option.map writeTy (some t)) : Option (Option RawTy)) =
+        some (some (RawTy.text (TypeName.valueOf missingName)))
+    · rw [if_pos hc]; rfl
+    · rw [if_neg hc]; rfl
 
 theorem resolveDisp_written (d : Option String) (h : ∀ n, d = some n → n ∈ dispositions.map Prod.fst) :
     resolveDisp (d.map writeDisp) = .ok d := by
@@ -265,22 +293,19 @@ theorem colFromDict_written (K : Caster V) (fresh : String) (c : Col V)
   rcases hm with rfl | hm
   · -- untyped
     have hw : writeTy c.type = .text (TypeName.valueOf missingName) := by rw [hty]; rfl
-    simp only [hw, if_true]
+    simp only [hw, if_true, restoreElem_written]
     refine init_normalised K fresh c hdec _ _ _ (.member missingName) dv rfl ?_ he hd hdv
     rw [hty]; rfl
   · have hw : writeTy c.type = .text (TypeName.valueOf m) := by rw [hty]; rfl
     have hne : (some (RawTy.text (TypeName.valueOf m)) = some (RawTy.text (TypeName.valueOf missingName))) = False := by
       simp only [Option.some.injEq, RawTy.text.injEq, eq_iff_iff, iff_false]
       exact base_ne_missing m hm
-    simp only [hw, hne, if_false]
+    simp only [hw, hne, if_false, restoreElem_written]
     refine init_normalised K fresh c hdec _ _ _ (.text (TypeName.valueOf m)) dv rfl ?_ he hd hdv
     rw [hty]
     apply resolveType_written hm
     intro hA
-    have := harr (by rw [hty, hA])
-    cases hc : c.element_type with
-    | none => rw [hc] at this; simp at this
-    | some t => rfl
+    exact restoredElem_isSome _ (harr (by rw [hty, hA]))
 
 theorem mapE_written (K : Caster V) (fresh : String) (cs : List (Col V))
     (h : ∀ c ∈ cs, Constructed K c ∧ Persistable c) :
@@ -329,7 +354,7 @@ def persistableB (c : Col V) : Bool :=
     | .zero => false)
   && (match c.element_type with
     | none => true
-    | some (.member e) => TypeName.baseTypes.contains e
+    | some (.member e) => persistableTypes.contains e
     | some .zero => false)
   && (c.type != .member TypeName.litArray || c.element_type.isSome)
   && (match c.disposition with
